@@ -11,17 +11,17 @@ CHECKS = {
             "all non-decreasing pin assignments, all parent tag subsets; stub git repositories; oracle from the statement",
             "bounded exhaustive exploration with exhaustion certificate: (a) all dependency graphs over <= 4 repositories incl. cycles; (b) linear component of 2-4 builds x parent families "
             "(linear 1-4, release + master) x every valid pin assignment x every tag subset; (c) component histories with merges (fork-merge in both parent orders, side line) "
-            "x parent families x reachability-monotone pin assignments x tag subsets",
-            "no merges in the parent history; reporting for a branch whose first shipping build belongs to a lower-sorted branch is not asserted", "DESIGN.md 3/C07"),
+            "x parent families x reachability-monotone pin assignments x tag subsets; (d) parent histories with a fork-merge inside one branch",
+            "parent merges limited to one fork-merge inside a branch; reporting for a branch whose first shipping build belongs to a lower-sorted branch is not asserted", "DESIGN.md 3/C07"),
     "C06": ("XH", "CrossHair-driven enumeration of commit-graph shapes and branch-head positions (z3 choice variables) with native sweeps over ALL placements of build tags and matching messages; "
             "stub git repository; reachability oracle from the statement; BranchName order checked symbolically for all non-negative ints",
             "bounded exhaustive exploration with exhaustion certificate: 16 graph shapes of <= 6 commits x every release-head position x all 2^n tag subsets x all matching subsets x 3 commit spacings (60 s / 2 days / 4.6 days); "
-            "symbolic (unbounded ints) total-order check of branch names",
+            "symbolic (unbounded ints) total-order check of branch names incl. prefix-first for names of different length",
             "git repository stubbed in memory; commit times strictly increasing along history", "DESIGN.md 3/C06"),
     "C10": ("XH", "CrossHair-driven enumeration of rendering histories (z3 choice variables for the first step, native sweep of the rest) over long-lived printable objects, with id() as seen by ak.ppobj "
             "replaced by an adversarial environment stub constrained by CPython's contract; compared with fresh objects / no_color twins through an independent SGR stripper",
             "bounded exhaustive exploration: histories of <= 2 steps exhaustively (<= 3-4 partially) over 5 object kinds x 3 configurations x no_color x explicit/global route; "
-            "configurations created and discarded between steps; id() may hand a new palette the id of any discarded one",
+            "configurations created and discarded between steps; id() may hand a new palette the id of any discarded one; every result also consumed line by line across the next step",
             "id() stub is the environment model (replay first tries real CPython address reuse, then the stub); console help only for layout-vs-colors", "DESIGN.md 3/C10"),
     "C18": ("XH", "CrossHair-driven enumeration (z3 choice variables: column permutation, leading blank rows, table offset, end rule, ladder, missing optional column) with native sweeps over row contents; "
             "stub worksheet; oracle = converter applied at the reported origin + independent reference locator + filled-in twin for ladder sheets",
@@ -39,11 +39,11 @@ CHECKS = {
     "C04": ("XH", "CrossHair symbolic execution of the real tokenizer/parser/get_orig_text with the regex engine stubbed (symbolic match ends and token kinds, symbolic line strings); "
             "solver-enumerated concrete texts through the real regex as second front end and as replay",
             "bounded model checking: all line lengths, token boundaries, blank lines, skipped text and span closings within <= 3 lines / <= 3-5 matcher calls (symbolic), "
-            "plus every concrete text of <= 6 (quick) / 7 (thorough) symbols over an 8-symbol alphabet through the real `re` tokenizer (str and list-of-lines input)",
+            "plus every concrete text of <= 6 (quick) / 7 (thorough) symbols over an 8-symbol alphabet through the real `re` tokenizer (str and list-of-lines input; get_orig_text on both forms), plus texts of <= 4 (5) symbols over white space that splitlines() breaks on",
             "regex engine is an environment stub in the symbolic part (contract: match starts at the requested column, non-empty); stub spaces may not exhaust in quick (reported)",
             "DESIGN.md 3/C04"),
     "C01": ("XH", "CrossHair-driven exhaustive enumeration (z3 choice variables) of grammar-family holes; real parser on ALL token strings up to the length bound, independent derivation checker",
-            "bounded exhaustive exploration with exhaustion certificate: every instantiation of 22 shape families (alternatives as written and reversed) x both smart_factorization settings x all token strings of length <= 4 (quick) / 6 (thorough)",
+            "bounded exhaustive exploration with exhaustion certificate: every instantiation of 25 shape families (alternatives as written and reversed) x both smart_factorization settings x all token strings of length <= 4 (quick) / 6 (thorough)",
             "structural property: the solver enumerates; step budget per parse; real tokenizer with synonym and keyword terminals", "DESIGN.md 3/C01"),
     "C02": ("XH", "as C01, with independent FIRST/FOLLOW/predict and fixpoint recogniser as oracles",
             "bounded exhaustive exploration: for every family grammar that is LL(1) as written or whose table the parser reports conflict-free, acceptance == sentence-hood for all strings up to the bound, "
